@@ -121,7 +121,9 @@ def canon_value(v):
     try:
         import pandas
         if isinstance(v, pandas.DataFrame):
-            return ("df", v.to_dict(orient="list"))
+            # everything that makes two frames equal: columns, their types, the row labels and their name(s), the cells
+            return ("df", [str(c) for c in v.columns], [str(t) for t in v.dtypes], [repr(x) for x in v.index.tolist()],
+                    [None if n is None else str(n) for n in v.index.names], v.to_dict(orient="list"))
     except ImportError:
         pass
     if isinstance(v, MyType):
@@ -145,7 +147,13 @@ def values(rng):
           ("str_subclass", TaggedStr("grüß", tag=7)), ("bytes_subclass", Digest(b"\x00\x01\xff")), ("str_enum", Color.BLUE)]
     try:
         import pandas
+        df = pandas.DataFrame({"a": [1, 2, 3, 4, 5, 6], "b": ["x", "y", "z", "u", "v", "w"], "c": [0.5, 1.5, 2.5, 3.5, 4.5, 5.5]})
         vs.append(("pandas", pandas.DataFrame({"a": [1, 2, 3], "b": ["x", "y", "z"]})))
+        # row labels that are not 0..n-1: a filtered frame, string labels, a named index, a sorted frame
+        vs.append(("pandas_filtered", df[df["a"] > 3]))
+        vs.append(("pandas_labels", pandas.DataFrame({"v": [1.0, 2.0]}, index=["first", "second"])))
+        vs.append(("pandas_named_index", df.set_index("b")))
+        vs.append(("pandas_sorted", df.sort_values("c", ascending=False)))
     except ImportError:
         pass
     return vs
